@@ -74,8 +74,8 @@ type connPlan struct {
 	Msgs        []msgPlan    `json:"client_messages"`
 	Pings       int          `json:"pings"`
 	ReaderPause int          `json:"client_reader_pause_ms,omitempty"` // the client starts reading late: the server's queue / socket buffer fills
-	Early       string       `json:"early,omitempty"`             // handshake and first frame(s) in one write / break-offs around the hand-over, see early.go
-	EarlyMore   int          `json:"early_more_frames,omitempty"` // valid messages behind the first frame, same write
+	Early       string       `json:"early,omitempty"`                  // handshake and first frame(s) in one write / break-offs around the hand-over, see early.go
+	EarlyMore   int          `json:"early_more_frames,omitempty"`      // valid messages behind the first frame, same write
 	MsgLimit    int          `json:"MessageLengthLimit,omitempty"`
 	End         string       `json:"end"` // close-frame | abort | abort-in-handler | server-close-in-handler | engine-stop | engine-stop-in-handler
 	Seed        int64        `json:"seed"`
